@@ -91,7 +91,8 @@ Qed.
 
 Lemma dict_edit_not_map_eq m m' : NoDup (keys m) -> dict_edit m m' -> ~ map_eq m m'.
 Proof.
-  intros N E H. destruct E as [m k v NE | m k NE].
+  intros N E H. destruct E as [m k v NE | m k NE | m k k' v NE A].
   - specialize (H k). rewrite assoc_dict_set_same in H. contradiction.
   - specialize (H k). rewrite assoc_dict_del_same in H; auto.
+  - specialize (H k'). rewrite assoc_dict_set_same, A in H. discriminate.
 Qed.
